@@ -507,7 +507,11 @@ func (g *Gen) pattern() []Event {
 			evs = append(evs, block(1, Event{Ev: "Undelegate", D: d, V: v, A: a, X: g.partOf(b)})...)
 			return evs
 		case 0:
-			evs = append(evs, block(1, Event{Ev: "Unjail", V: g.vname()})...)
+			// a validator (with or without alliance stake) is jailed without a slash, or comes back, in a block of its own
+			jv := g.vname()
+			evs = append(evs, block(1, Event{Ev: pick(g.r, []string{"Unjail", "Jail", "Jail"}), V: jv})...)
+			evs = append(evs, block(1)...)
+			evs = append(evs, block(1, Event{Ev: "Unjail", V: jv})...)
 		case 1:
 			// a native delegator enters and, in a block of its own, leaves completely (BeforeDelegationRemoved, fix F4)
 			nd, nv := g.dname(), g.vname()
